@@ -18,7 +18,7 @@ func selftestDeterminism(props []string, n int, seed uint64) int {
 	for _, prop := range props {
 		c := &Checker{Prop: prop, Tier: "quick", Seed: seed, Start: time.Now(), Workers: 16, builds: map[string]*Build{}, baseline: map[string]*Rec{}, agg: newAgg()}
 		if digestProps(prop) {
-			c.Bank = 400
+			c.Bank = 300
 		}
 		cfgs := []BuildCfg{{Corpus: seed}}
 		if prop == "C08" || prop == "C16" {
